@@ -45,11 +45,71 @@ Proof. exact clean_lossless_obs. Qed.
 Theorem C04_ftp_full : C04_full SVC_FTP.
 Proof. exact ftp_run. Qed.
 
-Theorem C04_smtp_full : C04_full SVC_SMTP.
-Proof. exact smtp_run. Qed.
+(* smtp: the code's events are a function of the byte stream (one persistent reader) for both
+   readings of MAIL FROM; the reference reading starts every mail with an empty chunk buffer *)
+Theorem C04_smtp_persistent : forall clean fuel st i buf, persistent (smtp_prog clean fuel st i buf).
+Proof. exact smtp_persistent. Qed.
+
+Theorem C04_smtp_code_reads_the_stream : forall segs,
+  run_impl SVC_SMTP segs = str_obs (impl_prog SVC_SMTP (fuel_for (concat segs))) (concat segs).
+Proof. exact smtp_run_code. Qed.
+
+(* mail accumulation, for every continuation of the dialogue: RSET empties the buffer, a BDAT
+   chunk appends exactly its bytes, BDAT LAST reports buffer ++ chunk and empties the buffer,
+   MAIL FROM opens with an empty buffer in the reference reading *)
+Theorem C04_smtp_rset_empties_the_buffer : forall clean self df i buf line,
+  line <> [] -> is_command line s_RSET = true ->
+  smtp_step clean self df SMail i buf line = self SLoop i [].
+Proof. exact smtp_rset_in_transaction. Qed.
+
+Theorem C04_smtp_bdat_chunk_appends : forall clean self df i buf line w cnt count,
+  line <> [] -> is_command line s_RSET = false -> is_command line s_RCPTTO = false ->
+  is_command line s_BDAT = true -> split_on SP line = [w; cnt] -> parse_int 32 cnt = Some count ->
+  smtp_step clean self df SMail i buf line =
+  PTake (Z.to_nat count) (fun chunk =>
+    if length chunk <? Z.to_nat count then PDone 0 else self SMail i (buf ++ chunk)).
+Proof. exact smtp_bdat_chunk. Qed.
+
+Theorem C04_smtp_bdat_last_reports_the_buffer : forall clean self df i buf line w cnt count,
+  line <> [] -> is_command line s_RSET = false -> is_command line s_RCPTTO = false ->
+  is_command line s_BDAT = true -> split_on SP line = [w; cnt; s_LAST] -> parse_int 32 cnt = Some count ->
+  smtp_step clean self df SMail i buf line =
+  PTake (Z.to_nat count) (fun chunk =>
+    if length chunk <? Z.to_nat count then PDone 0
+    else match mail_parse (buf ++ chunk) with
+         | None => PDone 0
+         | Some m => PEmit (mail_event m) (self SLoop i [])
+         end).
+Proof. exact smtp_bdat_last. Qed.
+
+Theorem C04_smtp_mail_from : forall clean self df i buf line,
+  line <> [] -> (LOOP_TRESHOLD <? S i) = false -> is_command line s_MAILFROM = true ->
+  smtp_step clean self df SLoop i buf line = self SMail (S i) (if clean then [] else buf).
+Proof. exact smtp_mail_from. Qed.
+
+(* outside "MAIL FROM with a non-empty buffer" the code IS the reference reading *)
+Theorem C04_smtp_code_is_reference_elsewhere : forall self df st i buf line,
+  (st = SLoop -> is_command line s_MAILFROM = true -> buf = []) ->
+  smtp_step false self df st i buf line = smtp_step true self df st i buf line.
+Proof. exact smtp_code_is_reference_step. Qed.
+
+(* defect of the code: a transaction abandoned without RSET leaks its chunks into the next mail *)
+Theorem C04_smtp_abandoned_chunk_refuted :
+  fst (run_impl SVC_SMTP [W_SMTP_STALE]) <> fst (expected SVC_SMTP W_SMTP_STALE).
+Proof. exact (proj1 smtp_abandoned_chunk_refuted). Qed.
 
 Theorem C04_redis_full : C04_full SVC_REDIS.
 Proof. exact redis_run. Qed.
+
+
+(* redis: the RESP reader as a function of the stream - any sequence of well-formed commands
+   ("*n" + n bulk strings, n >= 1; every argument an arbitrary LF-free byte string, the EMPTY
+   string included; the declared bulk lengths are not even consulted by the code) is read as
+   exactly one event per command, in order, and nothing else, given fuel for it *)
+Theorem C04_redis_commands_parsed_exactly : forall cs f,
+  Forall wf_cmd cs ->
+  str_obs (redis_prog (cmds_cost cs + S f) []) (concat (map enc_cmd cs)) = (map cmd_event cs, 0%N).
+Proof. exact redis_commands. Qed.
 
 (* incl. storage commands and their data blocks *)
 Theorem C04_memcached_full : C04_full SVC_MEMCACHED.
@@ -140,7 +200,7 @@ Proof. vm_compute. reflexivity. Qed.
 Example C04_smtp_nonvacuous :
   fst (run_impl SVC_SMTP [firstn 30 [69;72;76;79;32;99;13;10;77;65;73;76;32;70;82;79;77;58;60;97;64;98;62;13;10;68;65;84;65;13;10;83;117;98;106;101;99;116;58;32;115;13;10;13;10;46;46;120;13;10;46;13;10;81;85;73;84;13;10]%N; skipn 30 [69;72;76;79;32;99;13;10;77;65;73;76;32;70;82;79;77;58;60;97;64;98;62;13;10;68;65;84;65;13;10;83;117;98;106;101;99;116;58;32;115;13;10;13;10;46;46;120;13;10;46;13;10;81;85;73;84;13;10]%N]) =
   [mkEv EV_SMTP_LINE [[69;72;76;79;32;99]%N]; mkEv EV_SMTP_LINE [[77;65;73;76;32;70;82;79;77;58;60;97;64;98;62]%N]; mkEv EV_SMTP_LINE [[68;65;84;65]%N];
-   mkEv EV_SMTP_MAIL [[46;120]%N ++ [10]%N]; mkEv EV_SMTP_LINE [[81;85;73;84]%N]].
+   mkEv EV_SMTP_MAIL [[46;120]%N ++ [10]%N; [115]%N]; mkEv EV_SMTP_LINE [[81;85;73;84]%N]].
 Proof. vm_compute. reflexivity. Qed.
 
 Example C04_memcached_nonvacuous :
@@ -177,6 +237,15 @@ Example C04_ldap_nonvacuous :
   [mkEv EV_LDAP [[51]%N; [97;98;97;110;100;111;110]%N]; mkEv EV_LDAP [[52]%N; [117;110;98;105;110;100]%N]].
 Proof. vm_compute. reflexivity. Qed.
 
+
+Example C04_redis_wf_nonvacuous :
+  wf_cmd ([51]%N, [([51]%N, [83;69;84]%N); ([48]%N, (@nil N)); ([49]%N, [118]%N)]) /\
+  enc_cmd ([51]%N, [([51]%N, [83;69;84]%N); ([48]%N, (@nil N)); ([49]%N, [118]%N)]) = [42;51;13;10;36;51;13;10;83;69;84;13;10;36;48;13;10;13;10;36;49;13;10;118;13;10]%N.
+Proof.
+  split; [|reflexivity]. unfold wf_cmd, wf_arg, line_ok. cbn [fst snd].
+  repeat (first [split | constructor | (eexists; reflexivity) | discriminate | reflexivity | (vm_compute; discriminate)]).
+Qed.
+
 Print Assumptions C04_read_until_depends_on_stream_only.
 Print Assumptions C04_take_depends_on_stream_only.
 Print Assumptions C04_read_returns_a_prefix.
@@ -184,7 +253,14 @@ Print Assumptions C04_persistent_reader_segmentation_invariant.
 Print Assumptions C04_persistent_reader_reads_the_stream.
 Print Assumptions C04_outside_read_and_reader_loss.
 Print Assumptions C04_ftp_full.
-Print Assumptions C04_smtp_full.
+Print Assumptions C04_smtp_persistent.
+Print Assumptions C04_smtp_code_reads_the_stream.
+Print Assumptions C04_smtp_rset_empties_the_buffer.
+Print Assumptions C04_smtp_bdat_chunk_appends.
+Print Assumptions C04_smtp_bdat_last_reports_the_buffer.
+Print Assumptions C04_smtp_mail_from.
+Print Assumptions C04_smtp_code_is_reference_elsewhere.
+Print Assumptions C04_smtp_abandoned_chunk_refuted.
 Print Assumptions C04_redis_full.
 Print Assumptions C04_memcached_full.
 Print Assumptions C04_http_full.
@@ -207,3 +283,4 @@ Print Assumptions C04_telnet_reads_are_the_stream.
 Print Assumptions C04_telnet_full.
 Print Assumptions C04_telnet_segmentation_invariant.
 Print Assumptions C04_telnet_text_line_one_event.
+Print Assumptions C04_redis_commands_parsed_exactly.
